@@ -59,3 +59,9 @@ Definition transact_named (S : schema) (d : dbstate) (l : list nop) : list resul
   | Ok ops => transact S d ops
   | _ => (match l with [] => [] | _ :: l' => RErr EOther :: map (fun _ => RNull) l' end, None)
   end.
+
+(** the client API's Create: the insert generated for a model carries the model's own identity and nothing else - its
+    _uuid field as "uuid" when it is a well-formed uuid, as "uuid-name" when it is a well-formed name, neither otherwise *)
+Definition create_ids (m : sym * bool * bool) : sym * sym :=
+  let '(u, valid, named) := m in
+  (if valid then u else 0%N, if named && negb valid then u else 0%N).
